@@ -101,6 +101,9 @@ def runLeaf (name : String) (args : List String) : String :=
   | "valid", [x] => showPy (evalBody [("self.bpm", x)] bpmValidate)
   | "nps", [s, e, c] => showPy (evalBody [("start_time", s), ("end_time", e), ("num_events_to_consider", c)] notesPerSecond)
   | "anchor", [us] => showPy (valueOf [("data.microseconds", us)] anchorTimestamp "timestamp")
+  | "tickadd", [a, b] => showPy (evalBody [("a", a), ("b", b)] tickAdd)
+  | "after", [tick, e] => showPy (evalBody [("tick", tick), ("self.end_tick", e)] tickIsAfterEvent)
+  | "during", [tick, st, aft] => showPy (evalBody [("tick", tick), ("self.tick", st), ("self.tick_is_after_event(tick)", aft)] tickIsDuringEvent)
   | "hopo", [thr, tick, note, chord, tap, forced, prev, ptick, pnote] =>
     showPy (evalBody ([("tick", tick), ("is_tap", tap), ("is_forced", forced), ("note", note), ("note.is_chord()", chord),
         ("chartparse.tick.note_duration_to_ticks(resolution, NoteDuration.EIGHTH_TRIPLET)", thr), ("previous", prev)] ++
